@@ -273,7 +273,12 @@ fn run_sharded(
                     }
                     if let Some(o) = cov.get("observed").and_then(|x| x.as_object()) {
                         for (k, v) in o {
-                            *observed.entry(k.clone()).or_insert(0) += v.as_u64().unwrap_or(0);
+                            let e = observed.entry(k.clone()).or_insert(0);
+                            if k.starts_with("max_") {
+                                *e = (*e).max(v.as_u64().unwrap_or(0));
+                            } else {
+                                *e += v.as_u64().unwrap_or(0);
+                            }
                         }
                     }
                     for (key, acc) in [
